@@ -479,6 +479,11 @@ func Generate(genseed uint64, stream string, thorough bool) *Case {
 		c.D0 = append(c.D0, k)
 	}
 	sort.Ints(c.D0)
+	// (last draw, so that the other choices of a generator seed stay what they were) CopyGraph with a limiter the
+	// harness can read: permits taken vs operations in flight at every event, all permits free after the return
+	if c.Mode == "g" && r.Chance(1, 2) {
+		c.OwnLim = true
+	}
 	return c
 }
 
